@@ -190,6 +190,23 @@ func (e *Engine) opaqueCall(st *State, fr *Frame, name string, sig *types.Signat
 }
 
 func (e *Engine) invoke(st *State, fr *Frame, recv Val, m *types.Func, args []Val, in ssa.Instruction, bind ssa.Value) {
+	// "atcall NAME: expr" for interface method calls (NAME = method name; arg0 = receiver)
+	if fr.isTop && e.cur != nil && e.cur.c != nil && !e.cur.discover && e.cur.collect == nil {
+		for _, cl := range e.cur.c.Clauses {
+			if cl.Kind != "atcall" || cl.Name != m.Name() || (cl.Case != "" && cl.Case != e.cur.caseName) || !e.wantClause(cl, e.cur.c) {
+				continue
+			}
+			ctx := e.frameCtx(st, fr, fr.blk)
+			ctx.env["arg0"] = recv
+			for i, a := range args {
+				ctx.env[fmt.Sprintf("arg%d", i+1)] = a
+			}
+			g := e.evalBool(ctx, cl.Expr)
+			e.curClause = cl
+			e.oblige(st, "atcall", fmt.Sprintf("atcall@%s#%d", cl.Name, cl.Ord), g, in.Pos(), cl.Props, cl.Text)
+			e.curClause = nil
+		}
+	}
 	tag := recv.iTag()
 	e.oblige(st, "nilderef", e.siteName("nilinvoke", in), Not(Eq(tag, BVConst(0, 32))), in.Pos(), nil, "method call on nil interface")
 	// ghost stream model for io.Reader / io.Writer method calls, whatever the dynamic type
